@@ -33,9 +33,9 @@
      Apply / Compute / Replace   :50-105                                               -> Write (SApply/SCompute/SReplace)
      OnUpdate(cb, trig)     :177  Subscribe c trig ; returned closure = Unsub c
      WithElements(setup, cond) :229  Subscribe c false ; teardown = Unsub c then tear down what is active; [wel_obs]
-     Decode(api, bytes)     :108  NOT the write path: inserts the decoded elements under the value mutex only
-                                  ([decode_step] below; finding reactive-set-decode-silent, refuted for live sets in
-                                  ApiProofs.v; the positive theorems are about schedules without it)
+     Decode(api, bytes)     :108  (after fix a05beeb) decode into a fresh ds.Set, then AddAll(decoded)   -> Write (SApply (e, 0));
+                                  a failing decode changes nothing (no operation).  The pinned code wrote the elements
+                                  under the value mutex only ([decode_step_pinned] below, refuted in ApiProofs.v)
    Out of scope (reason): SubtractReactive, DerivedSet.InheritFrom, DerivedVariable (several objects wired together: C14),
    Get/Read/ReadOnly/WasTriggered/Encode (readers). *)
 From Coq Require Import List Bool Arith NArith.
@@ -159,11 +159,26 @@ Fixpoint merge_ev (l : list (bool * N)) : list (bool * N) :=
 Definition norm_ev (l : list (bool * N)) : list (bool * N) :=
   merge_ev (filter (fun e => negb (N.eqb (snd e) 0)) l).
 
-(* ---------------- Set.Decode as it is in the code (set_impl.go:108-113) ---------------- *)
+(* ---------------- value-changing methods of Set ---------------- *)
+Inductive scall :=
+| KApply (m : N * N)            (* Apply; Add/AddAll = (e, 0); Delete/DeleteAll = (0, e) *)
+| KCompute (f : N -> N * N)
+| KReplace (e : N)
+| KDecode (e : N).              (* Decode of the encoding of the elements e (after fix a05beeb) *)
+Definition scall_op (c : scall) : sop :=
+  match c with
+  | KApply m => SApply m
+  | KCompute f => SCompute f
+  | KReplace e => SReplace e
+  | KDecode e => SApply (e, 0%N)
+  end.
+Definition sapi_sch := map_sch scall_op.
+
+(* ---------------- Set.Decode as it was in the pinned code (set_impl.go:108-113 before a05beeb) ---------------- *)
 (* readableSet.mutex.Lock(); s.value.Decode(api, b) (= insert every decoded element); Unlock().  One critical section
    without blocking, hence one atomic step, enabled when the value mutex is free.  No update-order mutex, no update id,
    no callback snapshot, no notification, and the change is not part of [hist]. *)
-Definition decode_step (s : state N (N * N) sop (N * N)) (e : N) : option (state N (N * N) sop (N * N)) :=
+Definition decode_step_pinned (s : state N (N * N) sop (N * N)) (e : N) : option (state N (N * N) sop (N * N)) :=
   match vm s with
   | None => Some (mkSt N (N * N) sop (N * N) (N.lor (val s) e) (uid s) (ord s) (vm s) (reg s) (cbs s) (thr s) (hist s) (rets s))
   | Some _ => None
